@@ -4,7 +4,7 @@
    the result is a usable key XOR an error, that a missing file is created with a key that the next
    Load returns again, and that every unreadable / empty / non-key state is an error. *)
 EXTENDS Naturals, Sequences, FiniteSets, TLC, Json, SequencesExt, IOUtils
-FileState == {"missing", "empty", "garbage", "wrongpem", "pubpem", "valid", "validws", "directory", "notdir", "missingdir"}
+FileState == {"missing", "empty", "garbage", "wrongpem", "pubpem", "valid", "validws", "directory", "notdir", "missingdir", "danglinglink"}   \* danglinglink: a symlink whose target directory does not exist (cannot be read, cannot be written)
 VARIABLES fs, res, steps
 Init == fs \in FileState /\ res = <<>> /\ steps = 0
 \* result of one Load: <<class, key identity>>
